@@ -78,3 +78,33 @@ pub fn cross(ctx: &mut Ctx) {
     });
     ctx.verdict.nontrivial = true;
 }
+
+/// tokio::spawn / join! / timeout on the simulator's executor.
+pub fn spawn(ctx: &mut Ctx) {
+    crate::scen::draw_schedule();
+    let r = crate::cli::run_async(async {
+        let mut hs = Vec::new();
+        for i in 0..4u64 {
+            hs.push(tokio::spawn(async move {
+                let a = tokio::task::spawn_blocking(move || i * 10).await.unwrap();
+                tokio::time::sleep(std::time::Duration::from_millis(5 * (4 - i))).await;
+                let b = tokio::task::spawn_blocking(move || a + 1).await.unwrap();
+                b
+            }));
+        }
+        let mut out = Vec::new();
+        for h in hs {
+            out.push(h.await.unwrap());
+        }
+        let (x, y) = tokio::join!(async { 1 }, async { 2 });
+        let t = tokio::time::timeout(std::time::Duration::from_secs(1), tokio::time::sleep(std::time::Duration::from_secs(5))).await;
+        let p = tokio::spawn(async { panic!("boom") }).await;
+        (out, x + y, t.is_err(), p.is_err())
+    });
+    match r {
+        Ok(simkit::exec::End::Done((out, 3, true, true))) if out == vec![1, 11, 21, 31] => {}
+        other => ctx.fail("spawn-selftest", format!("{:?}", other.map(|e| format!("{:?}", e.kind())))),
+    }
+    ctx.verdict.nontrivial = true;
+    ctx.verdict.shape = simkit::with(|s| s.sched_hash);
+}
